@@ -1043,6 +1043,59 @@ def fuzz_inputs(ctx, scale):
     for d in [1, 8, 32, 60, 64]:
         for kind in 'AFx':
             yield 'nested-%d' % d, table_frame(b'\x01k' + nested(rng, d, kind))
+    # 7b. a value the decoder must REFUSE at the bottom of a chain of containers: the refusal travels up through every
+    #     level (error translation / re-raising per level must stay linear in time and memory)
+    idx = 0
+    leaves = [('tag', b'Z\x00'), ('utf8key', None), ('timestamp', b'T' + struct.pack('>Q', 2 ** 63)),
+              ('array-overrun', b'A' + struct.pack('>I', 100) + b'V'), ('short', b'I\x00'), ('utf8str', b'S' + struct.pack('>I', 1) + b'\xff')]
+    for depth in [1, 2, 4, 8, 12, 16, 20, 24]:
+        for lname, leaf in leaves:
+            for kinds in ('F', 'A', 'FA'):
+                idx += 1
+                if not mine(ctx, idx):
+                    continue
+                if leaf is None:
+                    v = b'F' + struct.pack('>I', 3) + b'\x01\xffV'
+                else:
+                    v = leaf
+                for i in range(depth):
+                    k = kinds[i % len(kinds)]
+                    body = v if k == 'A' else b'\x01k' + v
+                    v = k.encode() + struct.pack('>I', len(body)) + body
+                yield 'deep-fail-%s-%d' % (lname, depth), table_frame(b'\x01k' + v)
+                hdr = b'\x01k' + v
+                yield 'deep-fail-hdr-%s-%d' % (lname, depth), wiregen.envelope(
+                    2, 1, struct.pack('>HHQH', 60, 0, 0, 0x2000) + struct.pack('>I', len(hdr)) + hdr)
+    # 7c. text from the wire is data, never a template: keys / strings made of formatting metacharacters, next to a value
+    #     the decoder refuses (so that the key travels into an error path) and next to a good one
+    metas = ['{}', '{0}', '{tenant}', 'x-{tenant}-ttl', '{0.foo}', '{0[1]}', '{', '}', '{{}}', '%s', '%(k)s', '%d', '%', '%%',
+             '\\', "'", '"', '\n', '\x00', '$x', '${x}', '\\N{DASH}', '{!r}', '{:>99999999}']
+    bad_values = [b'Z', b'T' + struct.pack('>Q', 2 ** 64 - 1), b'A' + struct.pack('>I', 100) + b'V',
+                  b'F' + struct.pack('>I', 3) + b'\x01\xffV', b'S' + struct.pack('>I', 2) + b'\xc3(', b'D', b'V']
+    for m in metas:
+        key = wiregen.short_str(m)
+        for bv in bad_values:
+            idx += 1
+            if not mine(ctx, idx):
+                continue
+            yield 'meta-key', table_frame(key + bv)
+            inner = key + bv
+            yield 'meta-key-nested', table_frame(b'\x01k' + b'F' + struct.pack('>I', len(inner)) + inner)
+            arr = b'F' + struct.pack('>I', len(inner)) + inner
+            yield 'meta-key-in-array', table_frame(b'\x01k' + b'A' + struct.pack('>I', len(arr)) + arr)
+            yield 'meta-key-headers', wiregen.envelope(2, 1, struct.pack('>HHQH', 60, 0, 0, 0x2000) + struct.pack('>I', len(inner)) + inner)
+        yield 'meta-shortstr', wiregen.envelope(1, 1, struct.pack('>HH', 60, 21) + key)                  # Basic.ConsumeOk(consumer_tag)
+        yield 'meta-shortstr-cut', wiregen.envelope(1, 1, struct.pack('>HH', 50, 10) + b'\x00\x00' + key)   # Queue.Declare cut after the name
+    # 7d. size fields with the top bit set (a signed read makes them negative and Python indexes from the END): the frame size
+    #     with 0xCE wherever a negative index can land; never a complete frame, whatever follows
+    for k in list(range(1, 80)) + [2 ** 31, 2 ** 31 - 1, 2 ** 31 - 8]:
+        size = (2 ** 32 - k) if k < 2 ** 30 else (2 ** 32 - k)
+        for t in (1, 2, 3, 8):
+            idx += 1
+            if not mine(ctx, idx):
+                continue
+            for tail in (b'', b'\xce', b'hello\xce', b'\xce' * 8, b'\xce' * 61, b'\x00\x3c\x00\x50' + b'\xce' * 40):
+                yield 'negsize', struct.pack('>BHI', t, rng.choice([1, 0xCECE, 0x00CE]), size) + tail
     # 8. random byte strings, random payloads in valid envelopes
     for _ in range(150 * scale):
         n = rng.choice([0, 1, 6, 7, 8, 9, 12, rng.randint(0, 64), rng.randint(0, 400)])
@@ -1063,7 +1116,7 @@ def fuzz(ctx, props, scale):
     i = 0
     for label, b in fuzz_inputs(ctx, scale):
         i += 1
-        ev = actions.unmarshal(b, budget=True, memory=(i % 10 == 0))
+        ev = actions.unmarshal(b, budget=True, memory=(i % 10 == 0 or label.startswith('deep-fail')))
         rec.add('Unmarshal', props, nt=True, label=label, **ev)
 
 
